@@ -114,13 +114,16 @@ def run_case(spec):
         feats.append("label_ne_auth")
     markers = rng.choice([(".", "?", "?"), ("?", ".", "."), (".", ".", "?"), ("?", "?", ".")])
     pdb_text = pdbfmt.to_text(items)
+    layout = rng.choice(["wwpdb", "wwpdb", "short", "noentity", "extra", "shuffled"])
+    if layout != "wwpdb":
+        feats.append("layout")
     cif_text = cifwriter.write(items, missing_alt=markers[0], missing_ins=markers[1], missing_chg=markers[2],
-                               label_auth=label)
+                               label_auth=label, layout=layout, rng=random.Random(spec["seed"] + 9))
     variant = rng.choice([[], [], ["--noopt"], ["--nodebump"], ["--whitespace"], ["--drop-water"], ["--keep-chain"]])
     opts = [f"--ff={spec['ff']}"] + variant
     ra = pipeline.run(pdb_text, opts, workname="c10")
     rb = pipeline.run(cif_text, opts, suffix=".cif", workname="c10")
-    wit = {"features": feats, "markers": markers, "label": label, "opts": opts, "seed": spec["seed"], "w": spec["w"],
+    wit = {"features": feats, "markers": markers, "label": label, "layout": layout, "opts": opts, "seed": spec["seed"], "w": spec["w"],
            "pdb_head": pdb_text[:800], "cif_atom_rows": [ln for ln in cif_text.splitlines() if ln.startswith(("ATOM", "HETATM"))][:6]}
     fkey = "+".join(sorted(feats)) or "plain"
     res.count("pairs")
